@@ -109,25 +109,39 @@ static void direct(int type, uint64_t bits)
 
 /* ---- file path: batches of 256 ---- */
 static int fb_type[256]; static uint64_t fb_bits[256]; static int fb_n;
-static void file_flush(void)
+static void file_flush_variant(int parsed)
 {
-  if (!fb_n) return;
   econf_file *w = NULL, *r = NULL; char key[16], msg[160], path[400];
-  econf_newKeyFile(&w, '=', '#');
-  for (int i = 0; i < fb_n; i++) { snprintf(key, sizeof key, "k%d", i); econf_err rc = do_set(w, key, fb_type[i], fb_bits[i]); if (rc) { snprintf(msg, sizeof msg, "setter returned %d", (int)rc); report(fb_type[i], fb_bits[i], "set/write/read/get", msg); } }
+  const char *what = parsed ? "set on a parsed object/write/read/get" : "set/write/read/get";
+  if (!parsed) econf_newKeyFile(&w, '=', '#');
+  else {
+    /* the object comes from a file in which every key exists already and has a key WITHOUT value as its neighbour */
+    sbuf pf = {0};
+    for (int i = 0; i < fb_n; i++) sb_printf(&pf, "k%d=0\n\nbare%d\n\n", i, i);
+    snprintf(path, sizeof path, "%s/prefill.conf", mc_work);
+    mc_write_file(path, pf.s, pf.len); sb_free(&pf);
+    if (econf_readFile(&w, path, "=", "#") != ECONF_SUCCESS || !w) { snprintf(msg, sizeof msg, "the prefilled file cannot be read"); report(fb_type[0], fb_bits[0], what, msg); return; }
+  }
+  for (int i = 0; i < fb_n; i++) { snprintf(key, sizeof key, "k%d", i); econf_err rc = do_set(w, key, fb_type[i], fb_bits[i]); if (rc) { snprintf(msg, sizeof msg, "setter returned %d", (int)rc); report(fb_type[i], fb_bits[i], what, msg); } }
   econf_err rc = econf_writeFile(w, mc_work, "v.conf");
   snprintf(path, sizeof path, "%s/v.conf", mc_work);
   if (rc == ECONF_SUCCESS) rc = econf_readFile(&r, path, "=", "#");
   mc_st->libcalls += 2 + 2 * (uint64_t)fb_n;
-  if (rc != ECONF_SUCCESS) { snprintf(msg, sizeof msg, "write/read of the batch failed with %d", (int)rc); report(fb_type[0], fb_bits[0], "set/write/read/get", msg); }
+  if (rc != ECONF_SUCCESS) { snprintf(msg, sizeof msg, "write/read of the batch failed with %d", (int)rc); report(fb_type[0], fb_bits[0], what, msg); }
   else for (int i = 0; i < fb_n; i++) {
     snprintf(key, sizeof key, "k%d", i);
-    if (do_get_check(r, key, fb_type[i], fb_bits[i], msg, sizeof msg)) report(fb_type[i], fb_bits[i], "set/write/read/get", msg);
+    if (do_get_check(r, key, fb_type[i], fb_bits[i], msg, sizeof msg)) report(fb_type[i], fb_bits[i], what, msg);
     if (mc_verbose) { char d[128]; describe(fb_type[i], fb_bits[i], d, sizeof d); char *s = NULL; econf_getStringValue(r, NULL, key, &s); printf("%s read back as \"%s\"\n", d, s ? s : ""); free(s); }
-    mc_st->executed++; mc_st->compared++;
+    if (!parsed) { mc_st->executed++; mc_st->compared++; }
   }
   if (w) econf_freeFile(w);
   if (r) econf_freeFile(r);
+}
+static void file_flush(void)
+{
+  if (!fb_n) return;
+  file_flush_variant(0);
+  file_flush_variant(1);
   fb_n = 0;
 }
 
